@@ -103,17 +103,39 @@ def cls_top(v):
     return _CLS[("top", v)]
 
 
+def compute_mid(model, s):
+    cfg = model["config"]
+    mv = MID[model["mid"]]
+    shared = opt_value(cfg.get("shared_opt", 2))
+    return g._out(s, "mid", s["v_src"] * 1000 + shared * 100 + opt_value(cfg.get("mid_opt", mv["mid_default"])) * 10 + mv["code"])
+
+
+def compute_top(model, mid):
+    cfg = model["config"]
+    shared = opt_value(cfg.get("shared_opt", 2))
+    return g._out(mid, "top", mid["v_mid"] * 7 + shared + opt_value(cfg.get("top_opt", 1)) * 3 + TOP[model["top"]]["code"])
+
+
 def expected_rows(model, t):
     s = rows_src()
     if t == "src":
         return s
-    cfg = model["config"]
-    mv = MID[model["mid"]]
-    shared = opt_value(cfg.get("shared_opt", 2))
-    mid = g._out(s, "mid", s["v_src"] * 1000 + shared * 100 + opt_value(cfg.get("mid_opt", mv["mid_default"])) * 10 + mv["code"])
-    if t == "mid":
-        return mid
-    return g._out(mid, "top", mid["v_mid"] * 7 + shared + opt_value(cfg.get("top_opt", 1)) * 3 + TOP[model["top"]]["code"])
+    mid = compute_mid(model, s)
+    return mid if t == "mid" else compute_top(model, mid)
+
+
+def acceptable_rows(model, t, d):
+    """every result a fuzzy request may legitimately return: stored data whose lineage matches modulo the fuzzy
+    parts, or the current plugin applied to an acceptable input (recursively)"""
+    want_lin = fresh_context(model, d, empty=True).lineage(RUN, t)
+    out = list(stored_matching(d, t, want_lin, model["fuzzy_for"], model["fuzzy_opt"]))
+    if t == "src":
+        out.append(rows_src())
+    elif t == "mid":
+        out += [compute_mid(model, x) for x in acceptable_rows(model, "src", d)]
+    else:
+        out += [compute_top(model, x) for x in acceptable_rows(model, "mid", d)]
+    return out
 
 
 # ------------------------------------------------------------------ operations
@@ -246,11 +268,9 @@ class Replay:
                                 res.violation(f"stale-read:{kind}:{self.classify(hist)}", f"get_array({t}) returned v={got['v_' + t].tolist()} but a brand-new context with the same settings computes {exp['v_' + t].tolist()}", case)
                                 return False
                         else:
-                            want_lin = fresh_context(model, d, empty=True).lineage(RUN, t)
-                            cands = stored_matching(d, t, want_lin, model["fuzzy_for"], model["fuzzy_opt"])
-                            okk = any(ctxrun.rows_equal(got, c) for c in cands) if cands else ctxrun.rows_equal(got, exp)
-                            if not okk:
-                                res.violation("fuzzy:wrong-data", f"fuzzy get_array({t}) returned v={got['v_' + t].tolist()}, stored candidates {[c['v_' + t].tolist() for c in cands]}, fresh {exp['v_' + t].tolist()}", case)
+                            cands = acceptable_rows(model, t, d)
+                            if not any(ctxrun.rows_equal(got, c) for c in cands):
+                                res.violation("fuzzy:wrong-data", f"fuzzy get_array({t}) returned v={got['v_' + t].tolist()}, which is neither stored data matching modulo the fuzzy parts nor computed from such data; acceptable {[c['v_' + t].tolist() for c in cands][:4]}", case)
                                 return False
                     if check and fuzzy and listing(d) != lst0:
                         res.violation("fuzzy:wrote", f"{kind}({t}) under fuzzy matching created {set(listing(d)) - set(lst0)}", case)
